@@ -69,6 +69,7 @@ counters!(
     loads_ok_quiet,
     loads_ok_after_transparent_events,
     loads_err_after_fault,
+    loads_refused_lenient_format,
     load_ok_despite_hard_fault,
     load_ok_despite_eintr,
     load_ok_without_open,
@@ -1103,6 +1104,10 @@ impl Sim {
                                 outcome = 1;
                                 if fired.any_error_like() {
                                     w.ctr.inc(C::loads_err_after_fault);
+                                } else if candidates.iter().any(|&c| !ctx.images[c].strict) {
+                                    // A rendering with liberties of debatable status: refusing it
+                                    // is not a wrong answer.
+                                    w.ctr.inc(C::loads_refused_lenient_format);
                                 } else if fired.replace.is_some() && a.opens >= 2 {
                                     // The loader opened the file twice and the file changed in
                                     // between: refusing to answer is not a wrong answer.
@@ -1127,7 +1132,7 @@ impl Sim {
                                     drop(w);
                                     std::panic::panic_any(HarnessError(msg));
                                 }
-                                if !fired.any_error_like() {
+                                if !fired.any_error_like() && candidates.iter().all(|&c| ctx.images[c].strict) {
                                     violation = Some(mk(
                                         "O2",
                                         format!(
@@ -1138,7 +1143,11 @@ impl Sim {
                                 }
                             }
                         }
-                        if violation.is_none() && is_tail && outcome != 0 {
+                        if violation.is_none()
+                            && is_tail
+                            && outcome != 0
+                            && candidates.iter().all(|&c| ctx.images[c].strict)
+                        {
                             violation = Some(mk(
                                 "O3",
                                 "the final fault-free load did not succeed".to_string(),
